@@ -178,6 +178,9 @@ def run_unit(unit_name, tier, seed, only_props=None, want_playback=True, log=sys
     hs = unit.harnesses(tier, seed)
     if only_props:
         hs = [h for h in hs if set(h["properties"]) & set(only_props)]
+    if os.environ.get("VERIF_HARNESS_FILTER"):
+        # development aid: run only the harnesses whose name matches
+        hs = [h for h in hs if re.search(os.environ["VERIF_HARNESS_FILTER"], h["name"])]
     result = {"unit": unit_name, "backend": "kani 0.68.0 / cbmc 6.11.0 / cadical", "harnesses": [],
               "tier": tier, "overlay": None, "cmd": None, "build_and_verify_s": None,
               "error": None, "trusted": list(getattr(unit, "TRUSTED", []))}
